@@ -5,6 +5,8 @@ import G3D.Model.Distance
 import G3D.Model.Angle
 import G3D.Model.PlaneForms
 import G3D.Model.Tol
+import G3D.Model.Heap
+import G3D.Model.Judge
 open G3D
 
 /-! Line-protocol driver of the executable model: one case per input line, one result line per case.
@@ -182,6 +184,49 @@ def tolOps : List String → Option (List Tol.Op)
   | "S" :: rest => do let tl ← tolOps rest; pure (.setSigDefault :: tl)
   | _ => none
 
+/-! heap protocol (C20): `heap` followed by operations
+      n k x y z                         new Point / Vector cell of kind k
+      b kind owning m (i cp)*m d (x y z)*d   build from m sources (cp = 1 deep copy, 0 alias) plus d derived literal cells
+      w root k x y z                    overwrite leaf k of root
+      m root j (idx)*j dx dy dz d (x y z)*d  move: shift the listed leaves in place, rebuild d derived literal cells
+      c root                            deepcopy
+      q                                 query
+    output: the observation (leaf values) of every object, `|`-separated -/
+def triple : P Heap.Triple := do pure (← rat, ← rat, ← rat)
+def bit : P Bool := do let n ← nat; pure (n != 0)
+
+partial def heapOps : P (List Heap.Op) := do
+  match (← get) with
+  | [] => pure []
+  | _ =>
+    let op ← (do
+      match (← tok) with
+      | "n" => do let k ← nat; let v ← triple; pure (Heap.Op.new k v)
+      | "b" => do
+          let kind ← nat; let ow ← bit; let m ← nat
+          let srcs ← many m (do let i ← nat; let cp ← bit; pure (i, cp))
+          let d ← nat; let lits ← many d triple
+          pure (Heap.Op.build kind ow srcs (fun _ => lits))
+      | "w" => do let r ← nat; let k ← nat; let v ← triple; pure (Heap.Op.write r k (fun _ => v))
+      | "m" => do
+          let r ← nat; let j ← nat; let idx ← many j nat; let dv ← triple
+          let d ← nat; let lits ← many d triple
+          pure (Heap.Op.move r idx (fun t => (t.1 + dv.1, t.2.1 + dv.2.1, t.2.2 + dv.2.2)) (fun _ => lits))
+      | "c" => do let r ← nat; pure (Heap.Op.copy r)
+      | "q" => pure Heap.Op.query
+      | _ => failure : P Heap.Op)
+    let rest ← heapOps
+    pure (op :: rest)
+
+def showTriple (t : Heap.Triple) : String := s!"{showRat t.1} {showRat t.2.1} {showRat t.2.2}"
+
+def heapRun (toks : List String) : String :=
+  match heapOps.run toks with
+  | some (ops, _) =>
+    let st := Heap.run ⟨[], []⟩ ops
+    " | ".intercalate (st.env.map (fun o => s!"{o.kind}:" ++ " ".intercalate ((Heap.obs st o).map showTriple)))
+  | none => "bad-op"
+
 def handle (line : String) : String :=
   let toks := (line.trimAscii.toString.splitOn " ").filter (· ≠ "")
   match toks with
@@ -267,6 +312,22 @@ def handle (line : String) : String :=
       | .ok pl => showGeo (.plane pl)
       | .error e => "err " ++ showCErr e
     | none => "bad-op"
+  | "validG" :: rest =>
+    match (do let n ← v3; let k ← nat; let pts ← many k v3; pure (n, pts) : P _).run rest with
+    | some ((n, pts), _) => showBool (polygonValidB n pts)
+    | none => "bad-op"
+  | "validB" :: rest =>
+    match (do let f ← nat; many f (do let n ← v3; let k ← nat; let pts ← many k v3; pure (n, pts)) : P _).run rest with
+    | some (faces, _) => showBool (polyhedronValidB faces)
+    | none => "bad-op"
+  | "mkG" :: rest =>
+    match (do let k ← nat; many k v3 : P _).run rest with
+    | some (pts, _) =>
+      match Polygon.mk? pts with
+      | .ok g => s!"G {g.pts.length} " ++ " ".intercalate (g.pts.map showV) ++ s!" N {showV g.plane.n} VALID {showBool g.validB}"
+      | .error e => "err " ++ showCErr e
+    | none => "bad-op"
+  | "heap" :: rest => heapRun rest
   | "tol" :: rest =>
     match tolOps rest with
     | some ops =>
